@@ -25,7 +25,8 @@ or absent) and every filter combination.
   returns exactly the direct result), `selectF_clean` (faults off the candidate set do not fail
   the query), `selectF_err_of_candidate_fault` (ORDER BY / TAIL: a fault on any candidate fails
   the query), `cached_ok_eq_direct` (histories through `handleSelectWithCache`: a faulted query
-  never poisons a later one), `select_ok_over_listing`.
+  never poisons a later one), `select_ok_over_listing`; `listing_sound_faults` /
+  `select_ok_over_faulted_listing` — the same with any per-object failure of the `.kfst` read.
 -/
 namespace KafVerif.SqlFilter
 
@@ -871,5 +872,141 @@ example : runCached okSegs (fun (_ : Nat) => ⟨0, none, none, none, some 10, so
     [⟨7, false, fun i => i == 1⟩, ⟨7, false, fun _ => false⟩, ⟨7, false, fun i => i == 0⟩] [] =
     [none, some [⟨0, 0, 0, 10⟩, ⟨0, 0, 1, 12⟩, ⟨0, 0, 2, 11⟩, ⟨1, 0, 3, 12⟩, ⟨1, 0, 4, 13⟩],
      some [⟨0, 0, 0, 10⟩, ⟨0, 0, 1, 12⟩, ⟨0, 0, 2, 11⟩, ⟨1, 0, 3, 12⟩, ⟨1, 0, 4, 13⟩]] := by decide
+
+/-! ### time-index faults -/
+
+theorem buildRefsT_sound (objs : List Obj) (hwf : WellFormedObjs objs) (ti : Obj → Bool) :
+    ∀ (l : List Obj) (i : Nat), (∀ x ∈ l, x ∈ objs) → Adj (fun a b => objLe a b = true) l →
+      l.Pairwise (fun a b => sameTP a b → a.base ≠ b.base) →
+      ∀ s ∈ buildRefsT ti l i, StatsSound s ∧ PartitionSound s := by
+  intro l
+  induction l with
+  | nil => intro i _ _ _ s hs; simp [buildRefsT] at hs
+  | cons o rest ih =>
+    intro i hmem hadj hdist s hs
+    simp only [buildRefsT, List.mem_cons] at hs
+    rcases hs with rfl | hs
+    · have ho : o ∈ objs := hmem o (by simp)
+      constructor
+      · intro r hr
+        simp only [List.mem_map] at hr
+        obtain ⟨p, hp, rfl⟩ := hr
+        refine ⟨?_, ?_, ?_, ?_⟩
+        · intro m hm; simp only [Option.some.injEq] at hm; subst hm; exact hwf.ge_base o ho p hp
+        · intro m hm
+          simp only at hm
+          -- where does MaxOffset come from?
+          have hfooter : ∀ m', Option.map (fun x => x.2.2.2)
+              (if ti o = true then scanSegment (o.recs.map fun p => (⟨i, o.partition, p.1, p.2⟩ : Rec)) else none) = some m' →
+              p.1 ≤ m' := by
+            intro m' hm'
+            cases hti : ti o with
+            | false => simp [hti] at hm'
+            | true =>
+              simp only [hti, if_true, Option.map_eq_some_iff] at hm'
+              obtain ⟨⟨a, b, c, d⟩, hscan, hd⟩ := hm'
+              simp only at hd
+              subst hd
+              have := KafVerif.C36.scan_sound _ a b c d hscan ⟨i, o.partition, p.1, p.2⟩
+                (List.mem_map.mpr ⟨p, hp, rfl⟩)
+              exact this.2.2.2
+          cases rest with
+          | nil => exact hfooter m hm
+          | cons n rest' =>
+            simp only at hm
+            split at hm
+            · rename_i hsame
+              split at hm
+              · rename_i hpos
+                simp only [Option.some.injEq] at hm
+                subst hm
+                have hn : n ∈ objs := hmem n (by simp)
+                have hst : sameTP o n := ⟨hsame.1.symm, hsame.2.symm⟩
+                have hle := objLe_same hadj.1 hst
+                have hne := (List.pairwise_cons.mp hdist).1 n (by simp) hst
+                have := hwf.lt_next o ho n hn hst (by omega) p hp
+                show p.1 ≤ n.base - 1
+                omega
+              · exact hfooter m hm
+            · exact hfooter m hm
+        · intro m hm
+          simp only at hm
+          cases hti : ti o with
+          | false => simp [hti] at hm
+          | true =>
+            simp only [hti, if_true, Option.map_eq_some_iff] at hm
+            obtain ⟨⟨a, b, c, d⟩, hscan, hd⟩ := hm
+            simp only at hd
+            subst hd
+            exact (KafVerif.C36.scan_sound _ a b c d hscan ⟨i, o.partition, p.1, p.2⟩
+              (List.mem_map.mpr ⟨p, hp, rfl⟩)).1
+        · intro m hm
+          simp only at hm
+          cases hti : ti o with
+          | false => simp [hti] at hm
+          | true =>
+            simp only [hti, if_true, Option.map_eq_some_iff] at hm
+            obtain ⟨⟨a, b, c, d⟩, hscan, hd⟩ := hm
+            simp only at hd
+            subst hd
+            exact (KafVerif.C36.scan_sound _ a b c d hscan ⟨i, o.partition, p.1, p.2⟩
+              (List.mem_map.mpr ⟨p, hp, rfl⟩)).2.1
+      · intro r hr
+        simp only [List.mem_map] at hr
+        obtain ⟨p, _, rfl⟩ := hr
+        rfl
+    · have hadj' : Adj (fun a b => objLe a b = true) rest := by
+        cases rest with
+        | nil => trivial
+        | cons n t => exact hadj.2
+      exact ih (i + 1) (fun x hx => hmem x (List.mem_cons_of_mem _ hx)) hadj' (List.pairwise_cons.mp hdist).2 s hs
+
+
+theorem buildRefs_eq_T (b : Bool) (l : List Obj) : ∀ i, buildRefs b l i = buildRefsT (fun _ => b) l i := by
+  induction l with
+  | nil => intro i; rfl
+  | cons o rest ih =>
+    intro i
+    show _ :: buildRefs b rest (i + 1) = _ :: buildRefsT (fun _ => b) rest (i + 1)
+    rw [ih (i + 1)] <;> rfl
+
+theorem listCompleted_eq_T (objs : List Obj) (b : Bool) : listCompleted objs b = listCompletedT objs (fun _ => b) := by
+  unfold listCompleted listCompletedT; exact buildRefs_eq_T b _ 0
+
+/-- **C36 (listing under time-index faults).** For a well-formed S3 log and EVERY per-object outcome of the
+`.kfst` footer read (time index off, footer missing, read error → `enrich` leaves the reference alone),
+every segment reference `ListCompleted` returns carries sound statistics. -/
+theorem _root_.KafVerif.C36.listing_sound_faults (objs : List Obj) (hwf : WellFormedObjs objs) (ti : Obj → Bool) :
+    ∀ s ∈ listCompletedT objs ti, StatsSound s ∧ PartitionSound s := by
+  unfold listCompletedT
+  have hperm := sortObjs_perm (objs.filter (·.complete))
+  apply buildRefsT_sound objs hwf ti
+  · intro x hx
+    exact (List.mem_filter.mp (hperm.mem_iff.mp hx)).1
+  · exact sortObjs_adj _
+  · have hsym : ∀ {x y : Obj}, (sameTP x y → x.base ≠ y.base) → (sameTP y x → y.base ≠ x.base) :=
+      fun h hs e => h ⟨hs.1.symm, hs.2.symm⟩ e.symm
+    exact (List.Perm.pairwise_iff hsym hperm).mpr (hwf.distinct.filter _)
+
+/-- **C36 (all modelled faults, end to end).** Over the listing of any well-formed S3 log taken under any
+time-index fault pattern, a query under any listing / Decode / cancellation fault oracle that completes
+returns exactly the direct filtering of the listed segments' records. -/
+theorem _root_.KafVerif.C36.select_ok_over_faulted_listing (objs : List Obj) (hwf : WellFormedObjs objs)
+    (ti : Obj → Bool) (q : Query) (hl : 0 < q.limit) (lf : Bool) (fault : Nat → Bool) (rows : List Rec)
+    (h : selectF q (listCompletedT objs ti) lf fault = some rows) : rows = direct q (listCompletedT objs ti) :=
+  KafVerif.C36.select_ok_eq_direct q _ (fun s hs => (KafVerif.C36.listing_sound_faults objs hwf ti s hs).1)
+    (fun s hs => (KafVerif.C36.listing_sound_faults objs hwf ti s hs).2) hl lf fault rows h
+
+/-- the records a listing exposes do not depend on the time-index outcome: a time-index fault changes
+statistics only, so the direct result is the same with and without it -/
+theorem buildRefsT_recs (t1 t2 : Obj → Bool) (l : List Obj) : ∀ i,
+    (buildRefsT t1 l i).map (fun s => (s.topic, s.recs)) = (buildRefsT t2 l i).map (fun s => (s.topic, s.recs)) := by
+  induction l with
+  | nil => intro i; rfl
+  | cons o rest ih => intro i; simp only [buildRefsT, List.map_cons, ih]
+
+example : (listCompletedT [⟨0, 0, 0, true, [(0, 10), (2, 11)], none⟩, ⟨0, 0, 3, true, [(3, 12)], none⟩]
+    (fun o => o.base != 0)).map (fun s => (s.minOffset, s.maxOffset, s.minTs, s.maxTs)) =
+    [(some 0, some 2, none, none), (some 3, some 3, some 12, some 12)] := by decide
 
 end KafVerif.SqlFilter
